@@ -374,6 +374,7 @@ def C18(ctx):
         cshape.rule_scan_init(ctx, m)
     misc.rule_identity(ctx, m, ['dtaidistance.subsequence.localconcurrences'])
     wps.rule_dual(ctx, m)
+    pyshape.rule_lc_marks(ctx, m)
     wps.rule_wps_readers(ctx, m, affinity=True)
     with ctx.scoped(has('dtw_best_path_affinity')):
         wps.rule_best_path_moves(ctx, m)
